@@ -225,6 +225,9 @@ example : wfContent (exContent1 true) = true ∧ wfContent (exContent1 false) = 
 example : maskOf ⟨[], (-99925, -2), [[.num 1 0, .num (-9992575) (-4), .num (-99925) (-2), .num (-999250) (-3)],
                                       [.num 2 0, .num (-999245) (-3), .null, .num (-99925) (-2)]]⟩ =
     [[false, false, true, true], [false, false, true, true]] := by decide +kernel
+/-- a declared NULL of 0 is a NULL like any other: zeros (in any spelling) and bad tokens are masked, -999.25 is data -/
+example : maskOf ⟨[], (0, 0), [[.num 5 0, .num 0 0, .num 0 (-2), .num (-99925) (-2), .null]]⟩ =
+    [[false, true, true, false, true]] := by decide +kernel
 example : wfContent (exContent false) = true := by decide +kernel
 example : wfContent (exContent true) = true := by decide +kernel
 example : wrapOf (exContent true) = true ∧ wrapOf (exContent false) = false := by decide +kernel
